@@ -36,10 +36,12 @@ Inst(hh, h, hn, n, c, kb) == Path("inst", hh, h, hn, n, c, kb)
 (* host kinds: none, DNS name, dotted name + port, IPv6 literal without    *)
 (* letters + port, IPv6 literal with hex letters of both cases + port,     *)
 (* userinfo                                                                *)
+(* DNS name with a hyphen inside a label                                   *)
+HyHost == <<"a", "mi", "B", "dot", "a">>
 Hosts == {<<>>, <<"a">>, <<"A", "dot", "b", "col", "N5">>,
           <<"lb", "col", "col", "N1", "rb", "col", "N5">>,
           <<"lb", "H", "N1", "col", "col", "h", "rb", "col", "N5">>,
-          <<"a", "col", "b", "at", "A">>}
+          <<"a", "col", "b", "at", "A">>, HyHost}
 Ip6NoPort == <<"lb", "h", "H", "col", "col", "H", "rb">>
 Nss == {<<>>, <<"a">>, <<"A", "sl", "b">>, <<"a", "sl", "B", "sl", "a">>}
 Clss == {<<"a">>, <<"A", "b">>}
@@ -52,6 +54,8 @@ StrAlpha == {"a", "A", "dq", "bs", "com", "eq", "lf", "dot", "col", "sl",
              "sp", "N1", "sq"}
 Strings == UNION {[1..k -> StrAlpha] : k \in 0..StrLen}
 Special == {<<"DT">>, <<"DT", "a">>, <<"a", "DT">>, <<"DT", "lf">>,
+            <<"DI">>, <<"DTs">>, <<"DIs">>, <<"DTs", "a">>, <<"a", "DIs">>,
+            <<"DIs", "lf">>,
             <<"a", "dot", "a", "eq", "N1">>,
             <<"sl", "col", "a", "dot", "a", "eq", "N1">>,
             <<"a", "col", "A", "dot", "a", "eq", "T">>,
@@ -83,6 +87,9 @@ RealLits == {<<"N1", "dot", "N5">>, <<"mi", "N1", "dot", "N5">>,
 Reals == {RealV(w, s) : w \in {"py", "real32", "real64"}, s \in RealLits}
 Others == {Val("boolean", "", <<"T">>, <<>>), Val("boolean", "", <<"F">>, <<>>),
            Val("datetime", "", <<"DT">>, <<>>),
+           Val("datetime", "", <<"DI">>, <<>>),
+           Val("datetime", "", <<"DTs">>, <<>>),
+           Val("datetime", "", <<"DIs">>, <<>>),
            Val("char16", "", <<"a">>, <<>>), Val("char16", "", <<"dq">>, <<>>),
            Val("char16", "", <<"bs">>, <<>>), Val("char16", "", <<"sq">>, <<>>)}
 Values == {Str(s) : s \in Strings \cup Special} \cup Ints \cup Reals
@@ -111,7 +118,9 @@ Inner3 == {Inst(FALSE, <<>>, hn, IF hn THEN <<"a">> ELSE <<>>, <<"b">>,
              hn \in BOOLEAN,
              v \in {Str(<<"dq">>), Str(<<"bs">>), Str(<<"A">>),
                     Str(<<"a", "lf">>), IntV("py", <<"N1">>),
-                    RealV("py", <<"N1", "dot", "N5", "ex">>)}}
+                    RealV("py", <<"N1", "dot", "N5", "ex">>),
+                    Val("datetime", "", <<"DI">>, <<>>),
+                    Val("datetime", "", <<"DTs">>, <<>>)}}
 Inner2 == {Inst(h # <<>>, h, h # <<>>, IF h # <<>> THEN <<"a">> ELSE <<>>,
                 <<"B">>, <<KB(<<"A">>, v)>>) :
              h \in {<<>>, <<"A">>, Ip6NoPort},
@@ -119,6 +128,14 @@ Inner2 == {Inst(h # <<>>, h, h # <<>>, IF h # <<>> THEN <<"a">> ELSE <<>>,
 U4 == {Inst(FALSE, <<>>, TRUE, <<"a">>, <<"a">>, kb) :
          kb \in {<<KB(<<"a">>, Ref(q))>> : q \in Inner2 \cup Inner3}
                 \cup {<<KB(<<"B">>, Ref(q)), KB(<<"a">>, Str(<<"eq">>))>> :
+                        q \in Inner3}
+                \* a reference to a path on a host with a hyphen
+                \cup {<<KB(<<"a">>,
+                           Ref(Inst(TRUE, HyHost, TRUE, <<"a">>, <<"B">>,
+                                    One)))>>}
+                \* a reference next to a reduced precision datetime key
+                \cup {<<KB(<<"b">>, Ref(q)),
+                        KB(<<"A">>, Val("datetime", "", <<"DIs">>, <<>>))>> :
                         q \in Inner3}}
 
 Universe == U1 \cup U2 \cup U3 \cup U4
@@ -151,7 +168,8 @@ Variants(p) == {Recase(g, p) : g \in {"flip", "up", "low"}}
 
 (* ------------------------------ mutations ------------------------------ *)
 MutSyms == {"a", "A", "N1", "N0", "sl", "col", "dot", "eq", "com", "dq", "sq",
-            "bs", "lf", "sp", "mi", "lb", "at", "ot", "T", "DT", "ex"}
+            "bs", "lf", "sp", "mi", "lb", "at", "ot", "T", "DT", "ex",
+            "DTs"}
 Mutations(t) ==
   {[i \in 1..Len(t) |-> IF i = k THEN c ELSE t[i]] :
      k \in 1..Len(t), c \in MutSyms}
@@ -201,6 +219,7 @@ Total == stage = 1 =>
 
 (* the exempt strings are exactly the look-alikes (vacuity guard)          *)
 ASSUME Exempt(<<"DT">>) /\ Exempt(<<"a", "dot", "a", "eq", "N1">>)
+       /\ Exempt(<<"DIs">>) /\ ~Exempt(<<"DTs", "a">>)
        /\ ~Exempt(<<"DT", "a">>) /\ ~Exempt(<<"a", "dot", "b", "eq", "a">>)
        /\ ~Exempt(<<"a", "lf">>) /\ ~Exempt(<<>>)
 
